@@ -50,6 +50,27 @@ pub struct SimErr(pub u32);
 #[derive(Debug)]
 pub struct SimManager;
 
+/// Manager of the sibling pool (`Op::Sibling`): two pools of one process share nothing, so whatever
+/// happens to the sibling must not show in the pool under test.
+#[derive(Debug)]
+pub struct SibManager;
+
+impl Manager for SibManager {
+    type Type = u8;
+    type Error = SimErr;
+
+    async fn create(&self) -> Result<u8, SimErr> {
+        engine::point("harness.dtor");
+        Ok(0)
+    }
+    async fn recycle(&self, _obj: &mut u8, _metrics: &Metrics) -> deadpool::managed::RecycleResult<SimErr> {
+        Ok(())
+    }
+    fn detach(&self, _obj: &mut u8) {
+        engine::point("harness.dtor");
+    }
+}
+
 impl Manager for SimManager {
     type Type = SimObj;
     type Error = SimErr;
@@ -1220,7 +1241,7 @@ pub fn run_op(actor: usize, idx: usize, op: Op, pool: &mut Option<SPool>) {
                 with_w(|w| w.held[actor].push(obj));
             }
         }
-        Op::Return { slot } => {
+        Op::Return { slot, unwinding } => {
             let Some(obj) = take_held(actor, slot) else { return };
             let id = obj.id;
             let opi = with_w(|w| {
@@ -1230,7 +1251,21 @@ pub fn run_op(actor: usize, idx: usize, op: Op, pool: &mut Option<SPool>) {
                 crate::moracle::on_return_invoke(w, opi, id);
                 opi
             });
-            let r = guarded(move || drop(obj));
+            let r = if unwinding {
+                // the holder panics: its object goes back to the pool from inside the unwinding
+                with_w(|w| w.cnt.fault("object_dropped_by_unwinding"));
+                #[allow(unreachable_code)]
+                let r = guarded(move || {
+                    let _owned = obj;
+                    std::panic::panic_any(InjectedPanic(id));
+                });
+                match r {
+                    Err(OpRes::Panicked { injected: true, .. }) => Ok(()),
+                    other => other,
+                }
+            } else {
+                guarded(move || drop(obj))
+            };
             with_w(|w| {
                 w.op_return(opi, r.err().unwrap_or(OpRes::Unit));
                 crate::moracle::on_return_done(w, opi, id);
@@ -1384,6 +1419,32 @@ pub fn run_op(actor: usize, idx: usize, op: Op, pool: &mut Option<SPool>) {
             with_w(|w| w.op_return(opi, r.err().unwrap_or(OpRes::Unit)));
         }
         Op::Nop => {}
+        Op::Sibling { kind } => {
+            let opi = with_w(|w| {
+                w.cnt.fault("sibling_pool_churn");
+                w.op_invoke(actor, idx, op)
+            });
+            let r = guarded(|| {
+                let p: Pool<SibManager> = Pool::builder(SibManager)
+                    .max_size(2)
+                    .runtime(deadpool::Runtime::Tokio1)
+                    .wait_timeout(Some(std::time::Duration::from_millis(5)))
+                    .build()
+                    .expect("sibling pool");
+                let mut st = DriveStats::default();
+                let a = drive(p.get(), &mut st);
+                let b = drive(p.get(), &mut st);
+                drop(a);
+                drop(b);
+                if kind % 2 == 0 {
+                    p.resize(0);
+                } else {
+                    let _ = p.retain(|_, _| false);
+                }
+                p.close();
+            });
+            with_w(|w| w.op_return(opi, r.err().unwrap_or(OpRes::Unit)));
+        }
     }
 }
 
